@@ -91,3 +91,45 @@ func ZZ_C13_SnapshotRace() {
 	e.zzCheckInvC("C13.race.settled", true, false)
 	zzReach("C13.race.done")
 }
+
+// C13 with a witness (quorum) replica attached: `POST /v1/quorumreplicas` attaches a
+// replica that counts towards the write quorum but holds no data and takes no snapshots.
+// The checkpoint speaks about the RF data replicas: it is kept only while all RF of them
+// are RW, whatever the witness's mode, and it is withdrawn when a data replica leaves.
+func ZZ_C13_CheckpointWithWitness() {
+	rf := zzParam("RF", 3)
+	e := zzSymbolicEnv(rf)
+	zzAssume(e.n == rf && e.countMode(types.RW) == rf)
+	c := e.c
+	w := zzAddrs[rf] // the spare address of the pool becomes the witness
+	zzmodel.NoFaults = true
+	e.f.noFail = true
+	zzAssume(c.AddQuorumReplica(w) == nil)
+	if zzNondetBool("witness.rw") {
+		zzAssume(c.SetReplicaMode(w, types.RW) == nil)
+	}
+	zzmodel.NoFaults = false
+	zzmodel.FailTag = "2."
+	victim := zzAddrs[zzConcretize(zzChoice("victim", rf))]
+	switch zzConcretize(zzChoice("event", 4)) {
+	case 0:
+		c.RemoveReplica(victim)
+	case 1:
+		e.f.remotes[victim].ZZInjectMonitorError(zzmodel.ErrIO)
+	case 2:
+		buf := make([]byte, 8)
+		c.WriteAt(buf, 0) // per-replica outcomes symbolic
+	default:
+		c.SetReplicaMode(victim, types.ERR)
+	}
+	zzSettle()
+	dataRW := e.countMode(types.RW)
+	zzAssert(zzImplies(c.Checkpoint != "", dataRW == rf), "C13.witness.checkpoint-kept-without-all-RF-data-replicas-RW")
+	if dataRW < rf {
+		zzReach("C13.witness.data-replica-left")
+		// (not asserted: Controller.Snapshot trusts RWReplicaCount, which counts an RW witness;
+		// a witness is RW only through the operator override PUT mode=RW, which is outside
+		// every claim - A-override - like forcing a rebuilding data replica to RW)
+	}
+	zzReach("C13.witness.done")
+}
